@@ -112,3 +112,38 @@ Definition sp_pend (sp : aspec) (j : nat) : option sample :=
   match nth_error (sp_trk sp) j with Some x => a_pend x | None => None end.
 Definition sp_seen (sp : aspec) (j : nat) : bool :=
   match nth_error (sp_trk sp) j with Some x => a_seen x | None => false end.
+
+(* ---------------------------------------------------------------- MPEG-TS variant
+   One stream, no look-ahead: a written unit is appended at once. Video is H264; units before the first
+   random-access one (and units without any slice) are skipped; audio of a non-leading track waits for the
+   presentation to start (with video present every video track is leading, otherwise the first audio track is). *)
+Record tspec := { tp_open : bool; tp_seen : list bool; tp_log : list tsunit }.
+
+Definition tsp_init (n : nat) : tspec := {| tp_open := false; tp_seen := repeat false n; tp_log := [] |}.
+
+Definition tsp_video_unit (ti : nat) (cf : tcfg) (a : au) : tsunit :=
+  {| u_track := ti; u_pts := mulDiv (a_pts a) 90000 (t_rate cf); u_dts := mulDiv (a_dts a) 90000 (t_rate cf);
+     u_ra := a_ra a; u_pays := map (fun x => (u_id x, u_tsize x)) (a_units a) |}.
+
+Definition tsp_audio_unit (ti : nat) (cf : tcfg) (a : au) : tsunit :=
+  {| u_track := ti; u_pts := mulDiv (a_pts a) 90000 (t_rate cf); u_dts := mulDiv (a_pts a) 90000 (t_rate cf);
+     u_ra := true; u_pays := map (fun x => (u_id x, u_tsize x)) (a_units a) |}.
+
+Definition tsp_step (T0 : list (tcfg * bool * nat)) (sp : tspec) (o : wop) : tspec :=
+  match o with
+  | WWrite ti a =>
+      match nth_error T0 ti, nth_error (tp_seen sp) ti with
+      | Some (cf, leading, _), Some seen =>
+          if isVideo (t_kind cf) then
+            if sp_video_skipped H264 seen a then sp
+            else {| tp_open := true; tp_seen := upd (tp_seen sp) ti (fun _ => true);
+                    tp_log := tp_log sp ++ [tsp_video_unit ti cf a] |}
+          else
+            if negb leading && negb (tp_open sp) then sp
+            else {| tp_open := true; tp_seen := tp_seen sp; tp_log := tp_log sp ++ [tsp_audio_unit ti cf a] |}
+      | _, _ => sp
+      end
+  end.
+
+Definition tsp_run (T0 : list (tcfg * bool * nat)) (sp : tspec) (ops : list wop) : tspec :=
+  fold_left (tsp_step T0) ops sp.
